@@ -121,7 +121,9 @@ func (p c09) Run(runseed uint64, tier string, acc *Acc) []*core.Violation {
 				core.SinkFault{K: k, Kind: "torn", Arg: r.Intn(1 << 16), Flavor: fl()},
 				core.SinkFault{K: k, Kind: "full", Flavor: fl()},
 				core.SinkFault{K: k, Kind: "err0", Sticky: true, Flavor: fl()},
-				core.SinkFault{K: k, Kind: "torn", Arg: r.Intn(1 << 16), Sticky: true, Flavor: fl()})
+				core.SinkFault{K: k, Kind: "torn", Arg: r.Intn(1 << 16), Sticky: true, Flavor: fl()},
+				// an outage that ends: 2..5 adjacent calls fail, then the destination accepts writes again
+				core.SinkFault{K: k, Kind: "err0", Burst: r.Range(2, 5), Flavor: fl()})
 		}
 		for i := range kinds {
 			c := &core.Case{Prop: "C09", Seed: runseed, W: w, SinkFault: &kinds[i], SinkKind: sinkKind}
@@ -131,6 +133,9 @@ func (p c09) Run(runseed uint64, tier string, acc *Acc) []*core.Violation {
 			if fired {
 				nontrivial++
 				kind := kinds[i].Kind
+				if kinds[i].Burst > 1 {
+					acc.Inc("fired/kind/err0-burst")
+				}
 				if kinds[i].Sticky {
 					kind += "-sticky"
 				}
@@ -222,6 +227,13 @@ func (p c09) Shrink(c *core.Case) []*core.Case {
 	var out []*core.Case
 	// simplify the fault first
 	f := *c.SinkFault
+	if f.Burst > 1 {
+		n := *c
+		g := f
+		g.Burst--
+		n.SinkFault = &g
+		out = append(out, &n)
+	}
 	if f.Sticky {
 		n := *c
 		g := f
